@@ -1022,9 +1022,55 @@ def _install(ch):
     # ---- environment
     env = {'NO_COLOR': '1', 'COLUMNS': '80', 'TZ': 'UTC', 'LC_ALL': 'C.UTF-8', 'PATH': '',
            'HOME': '/nonexistent', 'PYTHONHASHSEED': os.environ.get('PYTHONHASHSEED', '0'), 'TMPDIR': ch.tmp}
+    if plan.get('lc_time') and os.environ.get('TALLYSIM_LOCPATH'):
+        # a locale the machine has installed, named for one category only (LC_ALL would override it)
+        env.pop('LC_ALL')
+        env.update({'LANG': 'C.UTF-8', 'LC_TIME': plan['lc_time'], 'LOCPATH': os.environ['TALLYSIM_LOCPATH']})
     env.update(plan.get('env') or {})
     os.environ.clear()
     os.environ.update(env)
+
+
+_LOCALE_SRC = '''comment_char %
+escape_char /
+
+LC_TIME
+abday "zo";"ma";"di";"wo";"do";"vr";"za"
+day "zondag";"maandag";"dinsdag";"woensdag";"donderdag";"vrijdag";"zaterdag"
+abmon "jan";"feb";"mrt";"apr";"mei";"jun";"jul";"aug";"sep";"okt";"nov";"dec"
+mon "januari";"februari";"maart";"april";"mei";"juni";"juli";"augustus";"september";"oktober";"november";"december"
+d_t_fmt "%a %d %b %Y %T"
+d_fmt "%d-%m-%y"
+t_fmt "%T"
+am_pm "";""
+t_fmt_ampm ""
+END LC_TIME
+'''
+
+
+def build_locale(root):
+    """The simulated machine has one more locale installed than this sandbox: a minimal Dutch LC_TIME, compiled with localedef
+    into the batch's scratch directory and found through LOCPATH.  Without localedef the dimension is simply absent."""
+    import shutil
+    import subprocess
+    os.environ.pop('TALLYSIM_LOCPATH', None)
+    exe = shutil.which('localedef')
+    if not exe:
+        return False
+    os.makedirs(root, exist_ok=True)
+    cm = ['<code_set_name> ANSI_X3.4-1968', '<comment_char> %', '<escape_char> /', 'CHARMAP']
+    cm += ['<U%04X>     /x%02x         CHAR%d' % (c, c, c) for c in range(128)]
+    cm.append('END CHARMAP')
+    with _real_open(os.path.join(root, 'ascii.cm'), 'w') as fh:
+        fh.write('\n'.join(cm) + '\n')
+    with _real_open(os.path.join(root, 'nl_src'), 'w') as fh:
+        fh.write(_LOCALE_SRC)
+    subprocess.run([exe, '-c', '-f', os.path.join(root, 'ascii.cm'), '-i', os.path.join(root, 'nl_src'), os.path.join(root, 'nl_NL')],
+                   stdout=subprocess.DEVNULL, stderr=subprocess.DEVNULL)
+    if os.path.exists(os.path.join(root, 'nl_NL', 'LC_TIME')):
+        os.environ['TALLYSIM_LOCPATH'] = root
+        return True
+    return False
 
 
 def _reimport_optimized():
